@@ -10,6 +10,7 @@ Oracle : differential.  pvl.new.loads(t) raises iff pvl.loads(t) raises; the res
          .encode(new) == E().encode(old), refusing on one side iff on the other.
 """
 import glob
+import zlib
 import os
 
 import pvl
@@ -23,7 +24,7 @@ from props import c01
 from vlib import gen_text as gt
 from vlib import gen_values as gv
 from vlib import normalise as nm
-from vlib.budget import BudgetExceeded, counting_lexer
+from vlib.budget import BudgetExceeded, counting_lexer, backstop, WallClockBackstop
 from vlib.dialects import make_encoder, ENCODERS
 from vlib.shrink import shrink_seq
 
@@ -77,6 +78,19 @@ def both_loads(text):
     except Exception as e:
         new = ("raised", type(e).__name__)
     return old, new
+
+
+def edit_below_top(m):
+    """Changes every nested block and every list value of *m* in place."""
+    for k, v in list(m.items()):
+        if isinstance(v, list):
+            v.append("edited")
+        elif hasattr(v, "items") and hasattr(v, "getall"):
+            try:
+                v["EDITED"] = 1
+            except Exception:
+                pass
+            edit_below_top(v)
 
 
 def enc_outcome(fn):
@@ -140,6 +154,25 @@ def run_text(text, arbitrary=False):
             return ("fail", "C19/plain-load-after-options",
                     f"pvl.new.loads after a dumps() with options differs: "
                     f"{pn2[:3]} {nm.diff(sn, sn2)}; text={text[:300]!r}")
+    if zlib.crc32(text.encode("utf-8", "surrogatepass")) % 3 == 1:
+        # the plain call, pvl.new.loads(text) with nothing else, twice - and in between
+        # the caller edits the first result below its top level (nested blocks, lists).
+        # Safe without a budget: the budgeted load of this very text has just returned.
+        try:
+            with backstop(60):
+                first = pvl.new.loads(text)
+                edit_below_top(first)
+                second = pvl.new.loads(text)
+        except WallClockBackstop:
+            raise RuntimeError("inconclusive: wall-clock backstop in plain pvl.new.loads")
+        except Exception as e:
+            return ("fail", "C19/plain-loads-raises",
+                    f"{type(e).__name__}: {e}; text={text[:300]!r}")
+        sn3, pn3 = structure(second, True)
+        if pn3 or nm.diff(so, sn3) is not None:
+            return ("fail", "C19/second-plain-load-differs",
+                    f"pvl.new.loads(text) again, after the first result was edited below "
+                    f"its top level: {pn3[:3]} {nm.diff(so, sn3)}; text={text[:300]!r}")
     a = enc_outcome(lambda: pvl.dumps(old[1]))
     b = enc_outcome(lambda: pvl.new.dumps(new[1]))
     STATS["dumps:" + a[0]] = STATS.get("dumps:" + a[0], 0) + 1
